@@ -95,6 +95,10 @@ class CachedStore(Entity):
         self._cache: dict[str, Any] = {}
         self._dirty_keys: set[str] = set()  # For write-back
 
+        # Consistency bookkeeping for operations that overlap in simulated time
+        self._key_epoch: dict[str, int] = {}  # bumped when a put/delete of the key starts
+        self._inflight_writes: dict[str, int] = {}  # backing writes/deletes issued, not yet applied
+
         # Statistics
         self._reads = 0
         self._writes = 0
@@ -172,9 +176,10 @@ class CachedStore(Entity):
 
         # Cache miss - fetch from backing store
         self._misses += 1
+        epoch = self._key_epoch.get(key, 0)
         value = yield from self._backing_store.get(key)
 
-        if value is not None:
+        if value is not None and self._fill_allowed(key, epoch):
             # Cache the value
             self._cache_put(key, value)
 
@@ -194,13 +199,18 @@ class CachedStore(Entity):
             Write latency.
         """
         self._writes += 1
+        self._key_epoch[key] = self._key_epoch.get(key, 0) + 1
 
         # Update cache
         self._cache_put(key, value)
 
         if self._write_through:
             # Write to backing store
-            yield from self._backing_store.put(key, value)
+            self._inflight_writes[key] = self._inflight_writes.get(key, 0) + 1
+            try:
+                yield from self._backing_store.put(key, value)
+            finally:
+                self._inflight_writes[key] -= 1
         else:
             # Mark as dirty for later writeback
             self._dirty_keys.add(key)
@@ -218,11 +228,19 @@ class CachedStore(Entity):
         Returns:
             True if key existed in either cache or backing store.
         """
+        self._key_epoch[key] = self._key_epoch.get(key, 0) + 1
         existed_in_cache = key in self._cache
         if existed_in_cache:
+            # Until the backing delete is applied, reads fall through to the
+            # backing store: it must not expose a value older than this entry.
+            self._write_back_if_dirty(key)
             self._cache_remove(key)
 
-        existed_in_store = yield from self._backing_store.delete(key)
+        self._inflight_writes[key] = self._inflight_writes.get(key, 0) + 1
+        try:
+            existed_in_store = yield from self._backing_store.delete(key)
+        finally:
+            self._inflight_writes[key] -= 1
         return existed_in_cache or existed_in_store
 
     def invalidate(self, key: str) -> None:
@@ -232,10 +250,13 @@ class CachedStore(Entity):
             key: The key to invalidate.
         """
         if key in self._cache:
+            self._write_back_if_dirty(key)
             self._cache_remove(key)
 
     def invalidate_all(self) -> None:
         """Clear the entire cache."""
+        for key in list(self._dirty_keys):
+            self._write_back_if_dirty(key)
         self._cache.clear()
         self._dirty_keys.clear()
         self._eviction_policy.clear()
@@ -253,11 +274,13 @@ class CachedStore(Entity):
         """
         flushed = 0
         for key in list(self._dirty_keys):
-            if key in self._cache:
-                yield from self._backing_store.put(key, self._cache[key])
-                self._dirty_keys.discard(key)
-                self._writebacks += 1
-                flushed += 1
+            if key in self._dirty_keys and key in self._cache:
+                yield self._backing_store.write_latency
+                # Write what the cache holds *now*: the entry may have been
+                # rewritten, written back by an eviction, or deleted meanwhile.
+                if key in self._dirty_keys and key in self._cache:
+                    self._write_back_if_dirty(key)
+                    flushed += 1
         return flushed
 
     def _cache_put(self, key: str, value: Any) -> None:
@@ -268,6 +291,7 @@ class CachedStore(Entity):
                 evict_key = self._eviction_policy.evict()
                 if evict_key is None:
                     break
+                self._write_back_if_dirty(evict_key)
                 self._cache.pop(evict_key, None)
                 self._dirty_keys.discard(evict_key)
                 self._evictions += 1
@@ -277,6 +301,27 @@ class CachedStore(Entity):
             self._eviction_policy.on_access(key)
 
         self._cache[key] = value
+
+    def _write_back_if_dirty(self, key: str) -> None:
+        """Write a dirty entry to the backing store before it leaves the cache.
+
+        Unflushed write-back data must not be dropped by an eviction or an
+        invalidation; the write is applied at once so that it cannot be
+        overtaken by a later write of the same key.
+        """
+        if key in self._dirty_keys and key in self._cache:
+            self._backing_store.put_sync(key, self._cache[key])
+            self._dirty_keys.discard(key)
+            self._writebacks += 1
+
+    def _fill_allowed(self, key: str, epoch: int) -> bool:
+        """Whether a miss may install the value it just read from the backing store.
+
+        If a put or delete of the key started after the read was issued, or a
+        write to the backing store is still in flight, the value may already be
+        out of date and must not be cached.
+        """
+        return self._key_epoch.get(key, 0) == epoch and not self._inflight_writes.get(key, 0)
 
     def _cache_remove(self, key: str) -> None:
         """Remove an entry from cache."""
